@@ -212,6 +212,10 @@ var c15HTTP struct {
 	decodeErr bool
 	closed    int
 	decoded   int
+	// the object the plugin's answer is decoded into, as it looked when decoding started
+	targetUser  string
+	targetPool  int
+	targetFresh bool
 }
 
 type c15Body struct{}
@@ -222,6 +226,12 @@ func (c15Body) Close() error               { c15HTTP.closed++; return nil }
 func c15StubMarshal(v any) ([]byte, error) { return []byte("{}"), nil }
 func c15StubUnmarshal(data []byte, v any) error {
 	c15HTTP.decoded++
+	if r, ok := v.(*Response); ok {
+		if lc, isLogin := r.Content.(*LoginContent); isLogin && lc != nil {
+			c15HTTP.targetFresh = true
+			c15HTTP.targetUser, c15HTTP.targetPool = lc.User, lc.PoolCount
+		}
+	}
 	if c15HTTP.decodeErr {
 		return errC15
 	}
@@ -252,8 +262,16 @@ func VerifC15HTTP() {
 	c15HTTP.readErr = zzverif.Bool("readErr")
 	c15HTTP.decodeErr = zzverif.Bool("malformedJSON")
 	c15HTTP.closed, c15HTTP.decoded = 0, 0
+	c15HTTP.targetFresh, c15HTTP.targetUser, c15HTTP.targetPool = false, "", 0
 	p := &httpPlugin{options: v1.HTTPPluginOptions{Name: "h", Ops: []string{OpLogin}}, url: "http://x/h", client: &http.Client{}}
-	res, content, err := p.Handle(NewReqidContext(context.Background(), "r"), OpLogin, LoginContent{})
+	var sent LoginContent
+	sent.User, sent.PoolCount = "alice", 7
+	res, content, err := p.Handle(NewReqidContext(context.Background(), "r"), OpLogin, sent)
+	if c15HTTP.decoded > 0 {
+		// the answer is decoded into an empty object of the request's type: what the plugin left out
+		// (cleared) must not be filled in from the request
+		zzverif.Assert(c15HTTP.targetFresh && c15HTTP.targetUser == "" && c15HTTP.targetPool == 0, "C15.http.answer-decoded-into-an-empty-object-of-the-request's-type")
+	}
 	ok := !c15HTTP.doErr && c15HTTP.status == 200 && !c15HTTP.readErr && !c15HTTP.decodeErr
 	zzverif.Assert((err == nil) == ok, "C15.http.fail-closed")
 	if err == nil {
